@@ -99,6 +99,7 @@ func NewGen(r *Rng, p *Profile, s *Sim) *Gen {
 	for _, k := range []string{KGC, KMisuse, "held", "callbacks", KShrink, KReset, "observers", "cache"} {
 		g.faultOn[k] = !r.Chance(0.3)
 	}
+	g.faultOn["next_after_early_close"] = r.Chance(0.15)
 	var kinds []string
 	for k := range p.W {
 		kinds = append(kinds, k)
@@ -304,6 +305,14 @@ func (g *Gen) Next() Op {
 		return g.genMisuse()
 	case KMatrix:
 		return Op{K: KMatrix, E: g.R.Intn(1000)}
+	case KQMisuse:
+		kinds := QMisuseKinds[:len(QMisuseKinds)-1]
+		if g.faultOn["next_after_early_close"] {
+			// own sub-profile (known finding, DESIGN.md C20): only in a share of the runs,
+			// so that it cannot hide other divergences
+			kinds = QMisuseKinds
+		}
+		return Op{K: KQMisuse, M: kinds[g.R.Intn(len(kinds))], E: g.R.Intn(1000), N: g.R.Intn(1000), F: g.R.Intn(MaxFilters), W: g.R.Intn(2)}
 	case KCodec:
 		op := Op{K: KCodec, E: g.R.Intn(100000), X: g.R.Uint64()}
 		if g.R.Chance(0.5) {
